@@ -854,28 +854,31 @@ class Interp:
         f.locals[s.name] = Closure(s, f, s.name)
 
     def s_With(self, s, f):
-        exits = []
-        for item in s.items:
-            mgr = self.eval(item.context_expr, f)
-            val = self.call_method(mgr, "__enter__", [], {}, f, default=lambda: mgr)
+        self._with_items(list(s.items), s.body, f)
+
+    def _with_items(self, items, body, f):
+        """`with a, b: body` is `with a: with b: body` (an exception while entering
+        b leaves a through its __exit__); an __exit__ that returns a concrete true
+        value swallows the exception"""
+        if not items:
+            self.exec_block(body, f)
+            return
+        item = items[0]
+        mgr = self.eval(item.context_expr, f)
+        val = self.call_method(mgr, "__enter__", [], {}, f, default=lambda: mgr)
+        try:
             if item.optional_vars is not None:
                 self.assign(item.optional_vars, val, f)
-            exits.append(mgr)
-        try:
-            self.exec_block(s.body, f)
+            self._with_items(items[1:], body, f)
         except PyRaise:
-            for mgr in reversed(exits):
-                self.call_method(mgr, "__exit__", ["exc", "exc", "exc"], {}, f,
-                                 default=lambda: None)
+            r = self.call_method(mgr, "__exit__", ["exc", "exc", "exc"], {}, f, default=lambda: None)
+            if r is True:
+                return
             raise
         except (_Return, _Break, _Continue):
-            for mgr in reversed(exits):
-                self.call_method(mgr, "__exit__", [None, None, None], {}, f,
-                                 default=lambda: None)
+            self.call_method(mgr, "__exit__", [None, None, None], {}, f, default=lambda: None)
             raise
-        for mgr in reversed(exits):
-            self.call_method(mgr, "__exit__", [None, None, None], {}, f,
-                             default=lambda: None)
+        self.call_method(mgr, "__exit__", [None, None, None], {}, f, default=lambda: None)
 
     def s_Try(self, s, f):
         try:
